@@ -467,7 +467,14 @@ class Interp:
                 return _Bound(obj, e.attr)
             raise AnalysisError("attribute %s of %r" % (e.attr, obj))
         if isinstance(e, ast.JoinedStr):
-            return "<fstring>"
+            out = ""
+            for part in e.values:
+                if isinstance(part, ast.Constant):
+                    out += str(part.value)
+                elif isinstance(part, ast.FormattedValue):
+                    v = self.eval(part.value, env)
+                    out += repr(v) if part.conversion == 114 else str(v)
+            return out
         if isinstance(e, ast.Call):
             return self.call(e, env)
         if isinstance(e, (ast.ListComp, ast.GeneratorExp, ast.SetComp)):
